@@ -92,13 +92,23 @@ def stream_serialize_vlq(f: BinaryIO, i: int) -> None:
 def stream_deserialize_vlq(f: BinaryIO) -> int:
     """ """
     result = 0
+    length = 0
 
     while True:
         (b,) = struct.unpack(b"B", safe_read(f, 1))
+        length += 1
 
         result += (b % 128)
 
         if b < 128:
-            return result
+            break
 
         result *= 128
+
+    # Each value has exactly one accepted encoding: the one stream_serialize_vlq produces. Accepting any other (e.g.
+    # redundant leading 0x80 bytes) would give the same block or transaction more than one hash, because hashes are
+    # calculated over the bytes as received.
+    if length != (result.bit_length() // 7) + 1:
+        raise DeserializationError("Non-canonical VLQ encoding")
+
+    return result
